@@ -1,6 +1,6 @@
-(** C12 — entry-level statements (including the mirror step and the diagonal the loops never visit):
-    what holds for every index tuple, what holds only off the unvisited diagonal ([_partial]) and the
-    witnesses showing that the unvisited entries are wrong ([_refuted]). *)
+(** C12 — entry-level statements (including the mirror step and the diagonal of the last two parent axes): every entry of every
+    matrix equals the enumeration ([_exact]); the FORMER code, which never visited that diagonal, agrees off it and is
+    refuted on it ([old_..._refuted], regression witnesses). *)
 From Coq Require Import Lqa Qfield.
 From PV Require Import Lib.Common Model.C12_Var Model.C12_Enum Proofs.C12_Sums Proofs.C12_Chunks Proofs.C12_Var Proofs.C12_Selfing
   Proofs.C12_Meiosis Proofs.C12_Exact Proofs.C12_Genic.
@@ -29,38 +29,66 @@ Proof.
   - assert (f = m) by lia. subst m. rewrite <- (twoway_pairs S R k t1 t2 (row geno f) (row geno f) Hm HD). symmetry. apply twoway_low_same.
 Qed.
 
-(** three-way: correct whenever female <> male *)
-Theorem threeway_entry_partial S R k geno t1 t2 r f m : mem_ok (s_mem S) -> D_tables S R k -> f <> m ->
+(** three-way: every entry, female = male included (the loop body's formula is valid for a repeated parent: [threeway_pairs]
+    holds for all genotypes) *)
+Theorem threeway_entry_exact S R k geno t1 t2 r f m : mem_ok (s_mem S) -> D_tables S R k ->
   threeway_entry S geno t1 t2 r f m == three_truth S R k geno t1 t2 r f m.
 Proof.
-  intros Hm HD Hne. unfold threeway_entry, mirror, three_truth.
-  destruct (Nat.ltb_spec m f) as [L|G]; [now apply threeway_pairs|].
-  destruct (Nat.ltb_spec f m) as [L2|G2]; [|lia].
+  intros Hm HD. unfold threeway_entry, mirror_incl, three_truth.
+  destruct (Nat.leb_spec m f) as [L|G]; [now apply threeway_pairs|].
   rewrite threeway_low_sym. now apply threeway_pairs.
 Qed.
 
-(** four-way: correct whenever female1 <> male1 *)
-Theorem fourway_entry_partial S R k geno t1 t2 f2 m2 f1 m1 : mem_ok (s_mem S) -> D_tables S R k -> f1 <> m1 ->
+(** four-way: every entry, female1 = male1 included *)
+Theorem fourway_entry_exact S R k geno t1 t2 f2 m2 f1 m1 : mem_ok (s_mem S) -> D_tables S R k ->
   fourway_entry S geno t1 t2 f2 m2 f1 m1 == four_truth S R k (row geno f2) (row geno m2) (row geno f1) (row geno m1) t1 t2.
 Proof.
-  intros Hm HD Hne. unfold fourway_entry, mirror, four_truth.
-  destruct (Nat.ltb_spec m1 f1) as [L|G]; [now apply quad_pairs|].
-  destruct (Nat.ltb_spec f1 m1) as [L2|G2]; [|lia].
+  intros Hm HD. unfold fourway_entry, mirror_incl, four_truth.
+  destruct (Nat.leb_spec m1 f1) as [L|G]; [now apply quad_pairs|].
   rewrite quad_low_sym34. now apply quad_pairs.
 Qed.
 
-(** dihybrid: correct whenever female <> male; the enumerated cross unites a gamete of the female (phases geno1 f, geno f)
+(** dihybrid: every entry, selfs included; the enumerated cross unites a gamete of the female (phases geno1 f, geno f)
     with a gamete of the male (phases geno1 m, geno m) *)
-Theorem dihybrid_entry_partial S R k geno geno1 t1 t2 f m : mem_ok (s_mem S) -> D_tables S R k -> f <> m ->
+Theorem dihybrid_entry_exact S R k geno geno1 t1 t2 f m : mem_ok (s_mem S) -> D_tables S R k ->
   dihybrid_entry S geno geno1 t1 t2 f m == four_truth S R k (row geno1 f) (row geno f) (row geno1 m) (row geno m) t1 t2.
 Proof.
-  intros Hm HD Hne. unfold dihybrid_entry, mirror, four_truth.
-  destruct (Nat.ltb_spec m f) as [L|G]; [now apply quad_pairs|].
-  destruct (Nat.ltb_spec f m) as [L2|G2]; [|lia].
+  intros Hm HD. unfold dihybrid_entry, mirror_incl, four_truth.
+  destruct (Nat.leb_spec m f) as [L|G]; [now apply quad_pairs|].
   rewrite quad_low_sym_pairs. now apply quad_pairs.
 Qed.
 
-(** * witnesses: one marker with effect 1, parents 0 and 1 *)
+(** a repeated last parent reduces the cross by one way: (f x f) x r is the two-way cross f x r *)
+Lemma E_three_repeated r k (R F : hap) (psi : hap -> Q) : E_three r k R F F psi == E_two r k F R psi.
+Proof. unfold E_three, E_two, Emei. cbn [fst snd]. destruct F as [a b]. cbn [fst snd]. field. Qed.
+
+Lemma E_four_repeated r k (P1 P2 P3 : hap) (psi : hap -> Q) : E_four r k P1 P2 P3 P3 psi == E_three r k P3 P1 P2 psi.
+Proof. unfold E_four, E_three, Emei. cbn [fst snd]. destruct P3 as [a b]. cbn [fst snd]. field. Qed.
+
+(** the truth of a repeated-parent entry is the truth of the smaller cross (what the property text calls the two-way variance) *)
+Theorem three_truth_repeated S R k geno t1 t2 r f : three_truth S R k geno t1 t2 r f f == two_truth S R k geno t1 t2 f r.
+Proof.
+  unfold three_truth, two_truth. apply psum_ext. intros c i j _ _ _. unfold dhcov, cov2. rewrite !E_three_repeated. reflexivity.
+Qed.
+Theorem four_truth_repeated S R k geno t1 t2 f2 m2 f1 :
+  four_truth S R k (row geno f2) (row geno m2) (row geno f1) (row geno f1) t1 t2 == three_truth S R k geno t1 t2 f1 f2 m2.
+Proof.
+  unfold four_truth, three_truth. apply psum_ext. intros c i j _ _ _. unfold dhcov, cov2. rewrite !E_four_repeated. reflexivity.
+Qed.
+
+(** * the former code: correct off the unvisited diagonal, wrong on it (regression witnesses) *)
+Lemma old_mirror_offdiag f m low : f <> m -> mirror f m low = mirror_incl f m low.
+Proof.
+  intros Hne. unfold mirror, mirror_incl.
+  destruct (Nat.ltb_spec m f), (Nat.leb_spec m f), (Nat.ltb_spec f m); try lia; reflexivity.
+Qed.
+Theorem old_entries_offdiag S geno geno1 t1 t2 :
+  (forall r f m, f <> m -> old_threeway_entry S geno t1 t2 r f m = threeway_entry S geno t1 t2 r f m) /\
+  (forall f2 m2 f1 m1, f1 <> m1 -> old_fourway_entry S geno t1 t2 f2 m2 f1 m1 = fourway_entry S geno t1 t2 f2 m2 f1 m1) /\
+  (forall f m, f <> m -> old_dihybrid_entry S geno geno1 t1 t2 f m = dihybrid_entry S geno geno1 t1 t2 f m).
+Proof. repeat split; intros; now apply old_mirror_offdiag. Qed.
+
+(** witnesses: one marker with effect 1, parents 0 and 1 *)
 Definition wS : setup := mk_setup 1 [[1]] [(0%nat, 1%nat)] None (Some 0%nat) [[0]].
 Definition wR : nat -> nat -> Q := lookup [[0]].
 Lemma wS_tables : D_tables wS wR 0.
@@ -70,44 +98,90 @@ Proof.
   - intros i j Hi Hj. assert (i = 0%nat) by lia. assert (j = 0%nat) by lia. subst. vm_compute. discriminate.
 Qed.
 
-(** three-way (1 x 1) x 0 is the two-way cross 1 x 0 and has variance 1; the matrix reports 0 *)
-Theorem threeway_repeated_parent_refuted : exists S R k geno r f,
-  mem_ok (s_mem S) /\ D_tables S R k /\ threeway_entry S geno 0 0 r f f == 0 /\ ~ three_truth S R k geno 0 0 r f f == 0.
+(** three-way (1 x 1) x 0 is the two-way cross 1 x 0 and has variance 1; the former matrix reported 0, the repaired one 1 *)
+Theorem old_threeway_repeated_parent_refuted : exists S R k geno r f,
+  mem_ok (s_mem S) /\ D_tables S R k /\ old_threeway_entry S geno 0 0 r f f == 0 /\ ~ three_truth S R k geno 0 0 r f f == 0 /\
+  threeway_entry S geno 0 0 r f f == three_truth S R k geno 0 0 r f f.
 Proof.
-  exists wS, wR, 0%nat, [[0%Z]; [1%Z]], 0%nat, 1%nat. split; [exact I|]. split; [exact wS_tables|]. split.
+  exists wS, wR, 0%nat, [[0%Z]; [1%Z]], 0%nat, 1%nat. split; [exact I|]. split; [exact wS_tables|]. split; [|split].
   - vm_compute. reflexivity.
   - intro H. vm_compute in H. discriminate.
+  - apply threeway_entry_exact; [exact I | exact wS_tables].
 Qed.
 
-Theorem fourway_repeated_parent_refuted : exists S R k geno f2 m2 f1,
-  mem_ok (s_mem S) /\ D_tables S R k /\ fourway_entry S geno 0 0 f2 m2 f1 f1 == 0 /\
-  ~ four_truth S R k (row geno f2) (row geno m2) (row geno f1) (row geno f1) 0 0 == 0.
+Theorem old_fourway_repeated_parent_refuted : exists S R k geno f2 m2 f1,
+  mem_ok (s_mem S) /\ D_tables S R k /\ old_fourway_entry S geno 0 0 f2 m2 f1 f1 == 0 /\
+  ~ four_truth S R k (row geno f2) (row geno m2) (row geno f1) (row geno f1) 0 0 == 0 /\
+  fourway_entry S geno 0 0 f2 m2 f1 f1 == four_truth S R k (row geno f2) (row geno m2) (row geno f1) (row geno f1) 0 0.
 Proof.
-  exists wS, wR, 0%nat, [[0%Z]; [1%Z]], 0%nat, 0%nat, 1%nat. split; [exact I|]. split; [exact wS_tables|]. split.
+  exists wS, wR, 0%nat, [[0%Z]; [1%Z]], 0%nat, 0%nat, 1%nat. split; [exact I|]. split; [exact wS_tables|]. split; [|split].
   - vm_compute. reflexivity.
   - intro H. vm_compute in H. discriminate.
+  - apply fourway_entry_exact; [exact I | exact wS_tables].
 Qed.
 
-(** dihybrid: selfing a heterozygote (phases 0 / 1) segregates; the matrix reports 0 on its diagonal *)
-Theorem dihybrid_self_refuted : exists S R k geno geno1 f,
-  mem_ok (s_mem S) /\ D_tables S R k /\ dihybrid_entry S geno geno1 0 0 f f == 0 /\
-  ~ four_truth S R k (row geno1 f) (row geno f) (row geno1 f) (row geno f) 0 0 == 0.
+(** dihybrid: selfing a heterozygote (phases 0 / 1) segregates; the former matrix reported 0 on its diagonal *)
+Theorem old_dihybrid_self_refuted : exists S R k geno geno1 f,
+  mem_ok (s_mem S) /\ D_tables S R k /\ old_dihybrid_entry S geno geno1 0 0 f f == 0 /\
+  ~ four_truth S R k (row geno1 f) (row geno f) (row geno1 f) (row geno f) 0 0 == 0 /\
+  dihybrid_entry S geno geno1 0 0 f f == four_truth S R k (row geno1 f) (row geno f) (row geno1 f) (row geno f) 0 0.
 Proof.
-  exists wS, wR, 0%nat, [[0%Z]], [[1%Z]], 0%nat. split; [exact I|]. split; [exact wS_tables|]. split.
+  exists wS, wR, 0%nat, [[0%Z]], [[1%Z]], 0%nat. split; [exact I|]. split; [exact wS_tables|]. split; [|split].
   - vm_compute. reflexivity.
   - intro H. vm_compute in H. discriminate.
+  - apply dihybrid_entry_exact; [exact I | exact wS_tables].
 Qed.
 
-(** genic matrices: the diagonal is never written *)
-Theorem genic_diagonal_refuted u p geno geno1 tr f : genic_entry u p geno geno1 tr f f = None.
-Proof. unfold genic_entry. now rewrite Nat.eqb_refl. Qed.
-
-Theorem genic_entry_partial u p geno tr f m : f <> m -> allele01 (row geno f) -> allele01 (row geno m) ->
-  exists v, genic_entry u p geno geno tr f m = Some v /\
-            v == sumQ (map (fun i => eff u tr (row geno f) (row geno m) i * cov_D1s 0 (Some 0%nat) * eff u tr (row geno f) (row geno m) i) (ix p)).
+(** * genic matrices *)
+(** the former two-way / dihybrid code never wrote the diagonal *)
+Theorem old_genic_diagonal_refuted u p geno geno1 tr f : old_genic_entry u p geno geno1 tr f f = None.
+Proof. unfold old_genic_entry. now rewrite Nat.eqb_refl. Qed.
+Lemma old_genic_offdiag u p geno geno1 tr f m : f <> m ->
+  exists v, old_genic_entry u p geno geno1 tr f m = Some v /\ v == genic_entry u p geno geno1 tr f m.
 Proof.
-  intros Hne Hf Hm. unfold genic_entry. destruct (Nat.eqb_spec f m) as [E|_]; [contradiction|].
-  eexists. split; [reflexivity|]. now apply genic_twoway.
+  intros Hne. unfold old_genic_entry, genic_entry, mirror_incl. destruct (Nat.eqb_spec f m) as [E|_]; [contradiction|].
+  eexists. split; [reflexivity|]. destruct (m <=? f)%nat; [reflexivity | apply genic_pair_sym].
+Qed.
+
+(** two-way genic: every entry, the diagonal included = the i = j terms of the two-way sum (D(r = 0) = 1) *)
+Theorem genic_entry_exact u p geno tr f m : allele01 (row geno f) -> allele01 (row geno m) ->
+  genic_entry u p geno geno tr f m ==
+  sumQ (map (fun i => eff u tr (row geno f) (row geno m) i * cov_D1s 0 (Some 0%nat) * eff u tr (row geno f) (row geno m) i) (ix p)).
+Proof.
+  intros Hf Hm. unfold genic_entry, mirror_incl, taf. destruct (m <=? f)%nat; [now apply genic_twoway|].
+  rewrite genic_pair_sym. now apply genic_twoway.
+Qed.
+
+(** dihybrid genic: every entry, selfs included = the i = j terms of the four-way block over the parents' phases *)
+Theorem genic_dihybrid_entry_exact u p geno geno1 tr f m :
+  allele01 (row geno f) -> allele01 (row geno1 f) -> allele01 (row geno m) -> allele01 (row geno1 m) ->
+  genic_entry u p geno geno1 tr f m ==
+  sumQ (map (fun i => let a0 := row geno f in let a1 := row geno1 f in let b0 := row geno m in let b1 := row geno1 m in
+     (1#4) * (eff u tr a0 a1 i * eff u tr a0 a1 i + eff u tr b1 a1 i * eff u tr b1 a1 i + eff u tr b1 a0 i * eff u tr b1 a0 i
+            + eff u tr b0 a1 i * eff u tr b0 a1 i + eff u tr b0 a0 i * eff u tr b0 a0 i + eff u tr b0 b1 i * eff u tr b0 b1 i)) (ix p)).
+Proof.
+  intros H1 H2 H3 H4. unfold genic_entry, mirror_incl, taf. cbv zeta. destruct (m <=? f)%nat; [now apply genic_dihybrid|].
+  rewrite genic_pair_sym. now apply genic_dihybrid.
+Qed.
+
+(** three-way / four-way genic: every entry = the i = j terms of the three-way / four-way block *)
+Theorem genic3_entry_exact u p geno tr r f m : allele01 (row geno r) -> allele01 (row geno f) -> allele01 (row geno m) ->
+  genic3_entry u p geno geno tr r f m ==
+  sumQ (map (fun i => let gR := row geno r in let gF := row geno f in let gM := row geno m in
+     (1#4) * (2 * (eff u tr gF gR i * eff u tr gF gR i + eff u tr gM gR i * eff u tr gM gR i) + eff u tr gF gM i * eff u tr gF gM i)) (ix p)).
+Proof.
+  intros H1 H2 H3. unfold genic3_entry, mirror_incl, taf. cbv zeta. destruct (m <=? f)%nat; [now apply genic_threeway|].
+  rewrite genic_tri_sym. now apply genic_threeway.
+Qed.
+Theorem genic4_entry_exact u p geno tr f2 m2 f1 m1 :
+  allele01 (row geno f2) -> allele01 (row geno m2) -> allele01 (row geno f1) -> allele01 (row geno m1) ->
+  genic4_entry u p geno geno tr f2 m2 f1 m1 ==
+  sumQ (map (fun i => let g1 := row geno f2 in let g2 := row geno m2 in let g3 := row geno f1 in let g4 := row geno m1 in
+     (1#4) * (eff u tr g2 g1 i * eff u tr g2 g1 i + eff u tr g3 g1 i * eff u tr g3 g1 i + eff u tr g3 g2 i * eff u tr g3 g2 i
+            + eff u tr g4 g1 i * eff u tr g4 g1 i + eff u tr g4 g2 i * eff u tr g4 g2 i + eff u tr g4 g3 i * eff u tr g4 g3 i)) (ix p)).
+Proof.
+  intros H1 H2 H3 H4. unfold genic4_entry, mirror_incl, taf. cbv zeta. destruct (m1 <=? f1)%nat; [now apply genic_fourway|].
+  rewrite genic_quad_sym34. now apply genic_fourway.
 Qed.
 
 (** selfing closed form, derived from the enumeration and expressed with the coded rprob_filial *)
